@@ -123,9 +123,9 @@ Proof.
   assert (E1 : cat mod 256 + 256 * (cat / 256 mod 256) = cat) by lia.
   assert (E2 : sn mod 256 + 256 * (sn / 256 mod 256) = sn) by lia.
   destruct Hh as [->|Hh].
-  - unfold render_adv, adv_parse. cbn. rewrite E1, E2. reflexivity.
+  - unfold render_adv, adv_parse. cbn -[N.mul N.add N.modulo N.div hexd]. rewrite E1, E2. reflexivity.
   - destruct sh as [|h0 [|h1 [|h2 [|h3 [|h4 sh]]]]]; cbn in Hh; try discriminate.
-    unfold render_adv, adv_parse. cbn. rewrite E1, E2. reflexivity.
+    unfold render_adv, adv_parse. cbn -[N.mul N.add N.modulo N.div hexd]. rewrite E1, E2. reflexivity.
 Qed.
 
 Lemma notif_roundtrip x advid payload :
